@@ -234,6 +234,15 @@ def run(ctx):
         ctx.count_case(ln, nontrivial=len(ln.split()) > 8)
     ctx.sample({"addressable_history(TLC)": ah[len(ah) // 2]})
     ctx.sample({"radix_history(TLC)": rh[len(rh) // 2]})
+    # RadixHeapI: bucket computation, reorganize_, push / top / pop / swap_top_bucket / peak_top_key / clear; every monotone history on small key widths
+    RHI = ("CONSTANTS W = %d\n RadixBits = %d\n MaxSize = %d\n Mutation = \"%s\"\nSPECIFICATION Spec\n"
+           "INVARIANTS BucketsRight Bookkeeping Delivers DeliversMin CurInRange\nCHECK_DEADLOCK FALSE\n")
+    for (w, rb, ms) in ([(4, 1, 3), (4, 2, 2)] if quick else [(4, 1, 4), (4, 2, 3), (5, 1, 3), (6, 3, 2)]):
+        tlc_mc(ctx, SD, "RadixHeapI", "mc_radixi_run.cfg", workers=NCPU, coverage=False, timeout=6000, xmx="16g", cfg_text=RHI % (w, rb, ms, "none"))
+    for mut in ("clear_keeps_current", "swap_keeps_filled"):
+        r = tlc_mc(ctx, SD, "RadixHeapI", "mc_radixi_neg.cfg", workers=NCPU, coverage=False, timeout=3000, expect_ok=False, cfg_text=RHI % (4, 1, 3, mut))
+        if r["ok"] or " is violated" not in r["out"]:
+            raise InternalError("negative self-test: RadixHeapI with Mutation=%s is not refuted" % mut)
     # 4. run + validate -------------------------------------------------------------------------
     san = ["-fsanitize=address,undefined", "-fno-sanitize-recover=undefined"]
     core = os.path.join(REPO, "tlx/die/core.cpp")
@@ -257,6 +266,19 @@ def run(ctx):
             return ("%s/v%s/%s" % (drv, e.get("variant"), e.get("e")),
                     "%s variant %s: call %s is not a step of the abstract heap (result, size, membership or drain order wrong)" % (drv, e.get("variant"), e.get("e")))
         validate_traces(ctx, SD, mod, mod + ".cfg", tr, classify)
+        if drv == "drv_radix":
+            # implementation level (DRIFT unless Trace_BagHeap rejects, which it did not above): insertion limit, current bucket and bucket sizes
+            # of the real heap after every call vs. RadixHeapI, for the 8- and 16-bit key types
+            groups = {}
+            for ex in split_executions([x for x in lines_t if x]):
+                r0 = json.loads(ex[0]) if ex and ex[0].startswith("{") else {}
+                if r0.get("variant") in (0, 1, 2, 3, 10) and "ist" in r0:
+                    groups.setdefault(r0["variant"], []).extend(ex)
+            ctx.cov["radix_ilevel_variants"] = sorted(groups)
+            for v, evs in sorted(groups.items()):
+                gf = ctx.path("radix_i_%d.ndjson" % v)
+                open(gf, "w").write("\n".join(evs) + "\n")
+                validate_traces(ctx, SD, "Trace_RadixHeapI", "Trace_RadixHeapI.cfg", gf, classify, property_level=(SD, mod, mod + ".cfg"), shards=4)
     ctx.assumptions += ["radix heap: pushes respect the documented insertion limit (>= the minimum last exposed by top/pop/swap_top_bucket)",
                         "addressable heap: after the environment changes a priority, update(k)/update_all() is called before any other operation",
                         "keys of the radix heap are handled as ranks into a per-type table of 16 concrete keys containing the type's extremes",
